@@ -56,7 +56,8 @@ ASSUMPTIONS = [
     'one Parameterized instance with 2 allow_refs Parameters, initialised before the first event; integer results, pairwise distinct',
     'hand-made futures are never shared between tasks (the k-th await of the t-th scheduled _async_ref task has id (t,k)); dependencies: '
     'only param.bind(async_fn, src.param.x) on ONE source parameter of another object (every source change re-evaluates every async '
-    'reference of the target, as _sync_refs does); no synchronous references to other Parameters (C08)',
+    'reference of the target, as _sync_refs does); ONE kind of synchronous reference: to the parameter x of a second source object '
+    'that never changes (so _sync_refs has something to step over; what a synchronous reference does when ITS source changes is C08)',
     'NOT modelled: real timing; sync generator functions (_to_async_gen runs next() in a thread pool via asyncio.to_thread); event loops '
     'other than asyncio\'s FIFO loop and user-supplied async_executor; the no-running-loop path of async_executor (run_until_complete); the '
     're-scheduling of _async_ref while the instance is uninitialised (unreachable on a running loop: the constructor finishes before the '
@@ -82,13 +83,15 @@ RULE = ('quick: corpus (the witness schedules of the repaired defects) + directe
         'parameter, alone or next to a second linked parameter) x 1-2 source changes x an optional plain assignment in every order, ticks in '
         'between, then the futures of all tasks (re-evaluations included) completed in several orders, plus one early completion at every '
         'point; REJECTED RESULTS (one completion of every schedule of <=2 assignments carries a value the parameter rejects; a first reference '
-        'whose result is rejected followed by every schedule of two more assignments); a WATCHER HOOK (on write of a: b = plain) in both directions x every schedule of <=2 assignments (3 in thorough); 24 rx '
-        'schedules; 2000 random schedules of <=5 assignments (generators with 1-3 '
+        'whose result is rejected followed by every schedule of two more assignments); the dependency schedules again NEXT TO A SYNCHRONOUS '
+        'REFERENCE on the other parameter (assigned before / after the asynchronous one; replaced by / replacing one in thorough); a WATCHER HOOK (on write of a: b = plain) in both directions x every schedule of <=2 assignments (3 in thorough); 24 rx '
+        'schedules; 600 random schedules of <=5 assignments (generators with 1-3 '
         'awaits). thorough: the same with 3 assignments in EVERY mix of coroutine / 2-await generator / plain on 1-2 parameters, bursts of 4, '
         'completions before the assignment everywhere, 60000 random schedules, and every rx schedule of <=3 input changes. After every event '
         'the observation is compared with the model and checked by the oracle. non-trivial = at least one result of an awaitable was '
         'applied; distinct = distinct canonical case')
-COVERAGE_TARGETS = ['again:while-linked', 'again:after-unlink', 'again:earlier-task-of-same-function-not-started',
+COVERAGE_TARGETS = ['bump:steps-over-sync-reference-first-in-refs', 'bump:steps-over-sync-reference', 'assign:sync-reference:cancels-registered',
+                    'again:while-linked', 'again:after-unlink', 'again:earlier-task-of-same-function-not-started',
                     'rx:complete:superseded-generator-between-yields', 'rx:set:generator', 'trigger:watcher-assigns:cancels-registered', 'trigger:watcher-assigns:unlinks',
                     'trigger:linked-parameter:cancels-registered', 'trigger:plain-parameter', 'step:result-rejected', 'complete:rejected-value', 'bump:while-task-registered', 'bump:also-reschedules-independent-reference', 'bump:no-dependent-reference',
                     'start:cancel-registered-older-evaluation', 'wake:cancelled-future:newer-task-registered',
@@ -100,6 +103,7 @@ COVERAGE_TARGETS = ['again:while-linked', 'again:after-unlink', 'again:earlier-t
                     'complete:wakes-task', 'complete:not-awaited-yet', 'complete:cancelled-future']
 
 NP = 2
+SYNC_VALUE = 900        # what the source of the synchronous reference holds
 NAMES = ['a', 'b']
 
 
@@ -182,16 +186,20 @@ def fut_value(tid, k):
     return 10 * (tid + 1) + k
 
 
-def _snapshot(t, log, spawns):
+def _snapshot(t, log, spawns, errs=None):
     pp = t._param__private
     o = {'vals': [getattr(t, n) for n in NAMES],
          'async': sorted(NAMES.index(k) for k in pp.async_refs),
          'sync': sorted(NAMES.index(k) for k in pp.syncing),
          'refs': sorted(NAMES.index(k) for k in pp.refs),
          'log': [list(x) for x in log],
-         'spawns': [list(x) for x in spawns]}
+         'spawns': [list(x) for x in spawns],
+         # class names of the exceptions `_async_ref` tasks ended with (cancellation apart)
+         'errs': list(errs or [])}
     del log[:]
     del spawns[:]
+    if errs:
+        del errs[:]
     for v in o['vals']:
         if not isinstance(v, int) or isinstance(v, bool):
             raise RuntimeError(f'non-integer value {v!r}')
@@ -216,7 +224,8 @@ async def _drive_param(case, loop):
     import param.parameterized as pz
     t = _cls()()
     src = _src_cls()()
-    log, spawns = [], []
+    src2 = _src_cls()(x=SYNC_VALUE)        # never changes: the source of the synchronous reference
+    log, spawns, errs = [], [], []
 
     def cb(*events):
         for e in events:
@@ -257,7 +266,13 @@ async def _drive_param(case, loop):
 
         async def tagged():
             cur.set(tid)
-            return await func()
+            try:
+                return await func()
+            except asyncio.CancelledError:
+                raise
+            except BaseException as ex:
+                errs.append(type(ex).__name__)
+                raise
         return orig(tagged)
 
     def coro_fn(dep):
@@ -288,7 +303,7 @@ async def _drive_param(case, loop):
     try:
         # `cfg`: which variant of the anchored code is installed (read from the source, see _facts);
         # the driver replays the schedule on the model of that variant
-        out = {'cfg': facts(), 'init': _snapshot(t, log, spawns), 'steps': []}
+        out = {'cfg': facts(), 'init': _snapshot(t, log, spawns, errs), 'steps': []}
         for e in case['events']:
             kind = e['e']
             if kind == 'assign':
@@ -299,6 +314,9 @@ async def _drive_param(case, loop):
                 elif e['src'] == 'agen':
                     last_fn[e['p']] = agen_fn(len(e['v']), e.get('dep', False))
                     setattr(t, name, last_fn[e['p']])
+                elif e['src'] == 'sync':
+                    # a synchronous reference to the second source object (`x` there is e['v'][0] for good)
+                    setattr(t, name, src2.param.x)
                 else:
                     setattr(t, name, e['v'][0])
             elif kind == 'tick':
@@ -319,7 +337,7 @@ async def _drive_param(case, loop):
                 t.param.trigger('c' if e.get('p') is None else NAMES[e['p']])
             else:
                 raise RuntimeError(kind)
-            out['steps'].append(_snapshot(t, log, spawns))
+            out['steps'].append(_snapshot(t, log, spawns, errs))
         return out
     finally:
         pz.async_executor = orig
@@ -410,7 +428,14 @@ def run_impl(case):
 def compare(impl, model):
     from ..run import first_diff
     m = {k: v for k, v in model.items() if k != 'hazards'}
-    return first_diff(impl, m)
+
+    def strip(o):
+        # `errs` (exceptions tasks ended with) is judged by the oracle only, the model does not produce it
+        if isinstance(o, dict) and 'steps' in o and 'init' in o:
+            return dict(o, init={k: v for k, v in o['init'].items() if k != 'errs'},
+                        steps=[{k: v for k, v in st.items() if k != 'errs'} for st in o['steps']])
+        return o
+    return first_diff(strip(impl), strip(m))
 
 
 # ------------------------------------------------------------------ generation
@@ -423,9 +448,15 @@ def _values(tid, n):
     return [10 * (tid + 1) + k for k in range(n)]
 
 
+def _is_async(e):
+    return e['e'] == 'assign' and e['src'] in ('coro', 'agen')
+
+
 def _assign(p, src, tid, plain_idx):
     if src == 'plain':
         return {'e': 'assign', 'p': p, 'src': 'plain', 'v': [100 + plain_idx]}
+    if src == 'sync':
+        return {'e': 'assign', 'p': p, 'src': 'sync', 'v': [SYNC_VALUE]}
     n = 1 if src == 'coro' else int(src[4:] or 2)
     return {'e': 'assign', 'p': p, 'src': 'coro' if src == 'coro' else 'agen', 'v': _values(tid, n)}
 
@@ -543,12 +574,15 @@ def _shadow_tasks(events):
     for e in events:
         if e['e'] == 'assign':
             links.pop(e['p'], None)
-            if e['src'] != 'plain':
+            if _is_async(e):
                 links[e['p']] = fns[e['p']] = (len(e['v']), bool(e.get('dep')))
                 out.append((len(out), len(e['v'])))
+            elif e['src'] == 'sync':
+                links[e['p']] = (0, False)          # linked, never re-evaluated by a change of `src`
         elif e['e'] == 'bump' and any(d for _, d in links.values()):
             for n, _ in list(links.values()):
-                out.append((len(out), n))
+                if n:
+                    out.append((len(out), n))
         elif e['e'] == 'again' and e['p'] in fns:
             links.pop(e['p'], None)
             links[e['p']] = fns[e['p']]
@@ -556,24 +590,37 @@ def _shadow_tasks(events):
     return out
 
 
-def _dep_schedules(tier, mover=None):
-    """references with a dependency: one or two linked parameters, 1-2 source changes, optionally a plain
+def _dep_schedules(tier, mover=None, sync=False):
+    """(`sync`: the second parameter holds a SYNCHRONOUS reference to another source, assigned before or
+    after the dependent asynchronous one — `_sync_refs` has to step over it —, the movable extra may also be
+    a synchronous reference replacing the asynchronous one or an asynchronous one replacing it)
+    references with a dependency: one or two linked parameters, 1-2 source changes, optionally a plain
     assignment, in every order, ticks in between; then the futures of every task (those scheduled by
     the source changes included) completed in several orders, ticking after each completion or once
     at the end; and the same with ONE early completion placed at every later point of the prefix"""
     quick = tier == 'quick'
     firsts = ['coro', 'agen2']
     seconds = [None, ('coro', False)] + ([] if quick else [('coro', True), ('agen2', True)])
+    if sync:
+        seconds = [('sync', True), ('sync', False)]         # (…, assigned first?)
     for k0 in firsts:
         for second in seconds:
             for nb in (1, 2):
                 if second is not None and nb == 2 and quick:
                     continue
-                for plain_p in (None, 0) + ((1,) if second is not None and not quick else ()):
+                extras = (None, 0) + ((1,) if second is not None and not quick else ())
+                if sync:
+                    extras = (None, 1) if quick else (None, 0, 1, 'S0', 'C1')
+                for plain_p in extras:
                     base = [dict(_assign(0, k0, 0, 0), dep=(mover is None))]
-                    if second is not None:
+                    if sync:
+                        base = [_assign(1, 'sync', 0, 0)] + base if second[1] else base + [_assign(1, 'sync', 0, 0)]
+                    elif second is not None:
                         base.append(dict(_assign(1, second[0], 1, 0), dep=second[1]))
-                    movable = [mover or {'e': 'bump'}] * nb + ([_assign(plain_p, 'plain', 0, 0)] if plain_p is not None else [])
+                    extra = {None: [], 'S0': [_assign(0, 'sync', 0, 0)], 'C1': [_assign(1, 'coro', 1, 0)]}.get(plain_p)
+                    if extra is None:
+                        extra = [_assign(plain_p, 'plain', 0, 0)]
+                    movable = [mover or {'e': 'bump'}] * nb + extra
                     seen = set()
                     for perm in itertools.permutations(range(len(movable))):
                         seq = [movable[i] for i in perm]
@@ -715,7 +762,8 @@ def _hook_schedules(tier):
 
 def _random_param_case(rng, max_assign):
     n = rng.randint(1, max_assign)
-    srcs = [rng.choice(['coro', 'coro', 'agen1', 'agen2', 'agen3', 'plain']) for _ in range(n)]
+    pool = ['coro', 'coro', 'agen1', 'agen2', 'agen3', 'plain'] + (['sync', 'sync'] if rng.random() < 0.3 else [])
+    srcs = [rng.choice(pool) for _ in range(n)]
     params = [rng.randrange(NP) for _ in range(n)]
     items, tid, plain = [], 0, 0
     chains = [[]]
@@ -724,7 +772,7 @@ def _random_param_case(rng, max_assign):
         chains[0].append(a)
         if s == 'plain':
             plain += 1
-        else:
+        elif s != 'sync':
             ks = list(range(len(a['v'])))
             if rng.random() < 0.2:
                 rng.shuffle(ks)
@@ -739,7 +787,7 @@ def _random_param_case(rng, max_assign):
         cand = [i for i, c in enumerate(live) if c and (i == 0 or pre or (i - 1) in assigned)]
         i = rng.choice(cand) if cand else 0
         ev = live[i].pop(0)
-        if i == 0 and ev['src'] != 'plain':
+        if i == 0 and _is_async(ev):
             assigned.add(len(assigned))
         order.append(ev)
     ptick = rng.choice([0.3, 0.5, 0.8])
@@ -750,7 +798,7 @@ def _random_param_case(rng, max_assign):
         hook[1] = 1 - hook[0]
     out = []
     for ev in order:
-        if use_dep and ev['e'] == 'assign' and ev['src'] != 'plain' and rng.random() < 0.6:
+        if use_dep and _is_async(ev) and rng.random() < 0.6:
             ev = dict(ev, dep=True)
         out.append(ev)
         if use_dep and rng.random() < 0.25:
@@ -939,6 +987,10 @@ def cases(rng, tier, worker, nworkers):
     for evs in _dep_schedules(tier):
         if mine():
             yield _mk(evs)
+    # ... next to a synchronous reference on the other parameter, which _sync_refs has to step over
+    for evs in _dep_schedules(tier, sync=True):
+        if mine():
+            yield _mk(evs)
     # results the parameter rejects: the write raises inside the task
     for evs in _fault_schedules(tier):
         if mine():
@@ -965,7 +1017,7 @@ def cases(rng, tier, worker, nworkers):
         for c in _rx_schedules(nset, nf, gen, full):
             if mine():
                 yield c
-    n_random = 1000 if tier == 'quick' else 60000 // nworkers
+    n_random = 600 if tier == 'quick' else 60000 // nworkers
     for _ in range(n_random):
         yield _random_param_case(rng, 5)
 
@@ -1000,7 +1052,7 @@ def nontrivial(case, impl, resp):
         return False
     if case['kind'] == 'rx':
         return resp.get('checked_steps', 0) >= 1 and any(s['value'] is not None for s in impl['steps'])
-    plain = {e['v'][0] for e in case['events'] if e['e'] == 'assign' and e['src'] == 'plain'}
+    plain = {e['v'][0] for e in case['events'] if e['e'] == 'assign' and e['src'] in ('plain', 'sync')}
     if case.get('hook'):
         plain.add(case['hook'][2])
     if case.get('thook'):
@@ -1023,11 +1075,11 @@ def shrink(case):
     tid_of = {}
     tid = 0
     for i, e in enumerate(evs):
-        if e['e'] == 'assign' and e['src'] != 'plain':
+        if _is_async(e):
             tid_of[i] = tid
             tid += 1
     for i, e in enumerate(evs):
-        if e['e'] == 'assign' and e['src'] != 'plain':
+        if _is_async(e):
             gone = tid_of[i]
             out = []
             for j, x in enumerate(evs):
